@@ -39,7 +39,16 @@ CLASSES = ['c_fixed', 't_fixed', 'x_fixed', 'ct', 'cx', 'ctx', 'tx']
 
 
 def class_functions(repo):
-  """field -> truth table mask over atoms (c, t, x), from GeoAssignments.__init__."""
+  """(env, field -> truth table mask over atoms (c, t, x), init) of the unrestricted constructor path."""
+  env, outcomes, init = class_outcomes(repo)
+  general = [flds for H, flds in outcomes if H == env.TRUE]
+  if not general:
+    raise Undecided('GeoAssignments.__init__ has no unconditional path')
+  return env, general[0], init
+
+
+def class_outcomes(repo):
+  """[(row mask allowed on the path, field -> truth table mask)] per path of GeoAssignments.__init__."""
   cls = repo.cls('geoeligibility.GeoAssignments')
   init = cls.methods.get('__init__')
   if init is None:
@@ -63,59 +72,109 @@ def class_functions(repo):
       raise Undecided('field %s read before it is set' % e.attr)
     return None
 
-  for st in init.node.body:
-    if isinstance(st, ast.Expr) and isinstance(st.value, ast.Constant):
-      continue
-    if not (isinstance(st, ast.Assign) and len(st.targets) == 1):
-      raise Undecided('statement not understood in GeoAssignments.__init__: %s' % norm(st))
-    v = boolset.eval_set(env, st.value, lookup)
-    t = st.targets[0]
-    if isinstance(t, ast.Name):
-      local[t.id] = v
-    elif isinstance(t, ast.Attribute) and isinstance(t.value, ast.Name) and t.value.id == selfn:
-      fields[t.attr] = v
-    else:
-      raise Undecided('target not understood: %s' % norm(t))
-  return env, fields, init
+  def universal(e, taken):
+    """Row mask allowed when test `e` has outcome `taken`: tests about whole sets restrict the generic element only in
+    their universal direction (A.isdisjoint(B) true: no element in both; false: nothing known pointwise)."""
+    neg = False
+    while isinstance(e, ast.UnaryOp) and isinstance(e.op, ast.Not):
+      e, neg = e.operand, not neg
+    holds = taken != neg
+    if isinstance(e, ast.Call) and isinstance(e.func, ast.Attribute) and len(e.args) == 1 and e.func.attr in ('isdisjoint', 'issubset', 'issuperset'):
+      A, B = boolset.eval_set(env, e.func.value, lookup), boolset.eval_set(env, e.args[0], lookup)
+      if not holds:
+        return env.TRUE
+      if e.func.attr == 'isdisjoint':
+        return env.neg(A & B)
+      return env.implies(A, B) if e.func.attr == 'issubset' else env.implies(B, A)
+    if isinstance(e, ast.Compare) and len(e.ops) == 1 and isinstance(e.ops[0], (ast.LtE, ast.GtE)):
+      A, B = boolset.eval_set(env, e.left, lookup), boolset.eval_set(env, e.comparators[0], lookup)
+      if not holds:
+        return env.TRUE
+      return env.implies(A, B) if isinstance(e.ops[0], ast.LtE) else env.implies(B, A)
+    # truthiness of a set expression: `if c & t:` ... else-branch means the set is empty
+    try:
+      A = boolset.eval_set(env, e, lookup)
+    except Undecided:
+      raise Undecided('branch condition not understood in GeoAssignments.__init__: %s' % norm(e))
+    if A is None:
+      raise Undecided('branch condition not understood in GeoAssignments.__init__: %s' % norm(e))
+    return env.TRUE if holds else env.neg(A)
+
+  g = cfgmod.CFG(init.node)
+  outcomes = []
+  for path in g.enumerate_paths(g.entry, lambda n: n is g.exit, cfgmod.no_exc, back_limit=0):
+    local.clear()
+    local.update({params[1]: env.atom('c'), params[2]: env.atom('t'), params[3]: env.atom('x')})
+    fields.clear()
+    H = env.TRUE
+    for i, (n, lab) in enumerate(path):
+      st = n.ast
+      if n.kind in ('entry', 'exit', 'return'):
+        continue
+      if n.kind == 'test':
+        taken = path[i + 1][1] == 'true'
+        H &= universal(n.expr, taken)
+        continue
+      if n.kind != 'stmt' or (isinstance(st, ast.Expr) and isinstance(st.value, ast.Constant)) or isinstance(st, ast.Pass):
+        if n.kind == 'stmt':
+          continue
+        raise Undecided('statement not understood in GeoAssignments.__init__: %s' % n.text())
+      if not (isinstance(st, ast.Assign) and len(st.targets) == 1):
+        raise Undecided('statement not understood in GeoAssignments.__init__: %s' % norm(st))
+      v = boolset.eval_set(env, st.value, lookup)
+      t = st.targets[0]
+      if isinstance(t, ast.Name):
+        local[t.id] = v
+      elif isinstance(t, ast.Attribute) and isinstance(t.value, ast.Name) and t.value.id == selfn:
+        fields[t.attr] = v
+      else:
+        raise Undecided('target not understood: %s' % norm(t))
+    outcomes.append((H, dict(fields)))
+  if not outcomes:
+    raise Undecided('GeoAssignments.__init__ has no normal path')
+  return env, outcomes, init
 
 
 def r1_partition(repo, rep):
-  env, fields, init = class_functions(repo)
+  env, outcomes, init = class_outcomes(repo)
   rep.fn(init)
   c, t, x = env.atom('c'), env.atom('t'), env.atom('x')
   n = 0
-  for name, want in (('c', c), ('t', t), ('x', x), ('all', c | t | x)):
-    if name not in fields:
-      rep.violation('R1/partition', init.qualname, 'self.%s never set' % name, 'GeoAssignments never sets %s' % name, init.loc())
-      continue
-    n += 1
-    rep.check(fields[name] == want, 'R1/partition', 'field %s is %s' % (name, {'all': 'c|t|x'}.get(name, name)), init.qualname,
-              'self.%s' % name, 'GeoAssignments.%s is not %s: rows %s' % (name, name, sorted(env.table(fields[name]))), init.loc())
-  for cls_name in CLASSES:
-    if cls_name not in fields:
-      rep.violation('R1/partition', init.qualname, 'self.%s never set' % cls_name, 'GeoAssignments never sets class %s' % cls_name, init.loc())
-      continue
-    rows = env.table(fields[cls_name], ['c', 't', 'x'])
-    want = {r for r, k in DOC_ROWS.items() if k == cls_name}
-    n += 1
-    rep.check(rows == want, 'R1/partition', 'class %s holds exactly row %s' % (cls_name, sorted(want)), init.qualname,
-              'self.%s' % cls_name,
-              'class %s contains eligibility rows %s but the documented table assigns it %s: geos are classified wrongly'
-              % (cls_name, sorted(rows), sorted(want)), init.loc())
-  # partition facts (follow from the above but stated on their own)
-  have = [fields[k] for k in CLASSES if k in fields]
-  union = 0
-  disjoint = True
-  for i, a in enumerate(have):
-    union |= a
-    for b in have[i + 1:]:
-      if a & b:
-        disjoint = False
-  legal = c | t | x
-  rep.check(disjoint and union == legal, 'R1/partition', 'seven classes are pairwise disjoint and cover exactly the legal rows',
-            init.qualname, 'class algebra', 'the seven classes do not partition the seven legal rows', init.loc())
+  for H, fields in outcomes:
+    under = '' if H == env.TRUE else ' on the path where only rows %s can occur' % sorted(env.table(H & (c | t | x), ['c', 't', 'x']))
+    for name, want in (('c', c), ('t', t), ('x', x), ('all', c | t | x)):
+      if name not in fields:
+        rep.violation('R1/partition', init.qualname, 'self.%s never set' % name, 'GeoAssignments never sets %s%s' % (name, under), init.loc())
+        continue
+      n += 1
+      rep.check(fields[name] & H == want & H, 'R1/partition', 'field %s is %s%s' % (name, {'all': 'c|t|x'}.get(name, name), under), init.qualname,
+                'self.%s' % name, 'GeoAssignments.%s is not %s%s: rows %s' % (name, name, under, sorted(env.table(fields[name] & H))), init.loc())
+    for cls_name in CLASSES:
+      if cls_name not in fields:
+        rep.violation('R1/partition', init.qualname, 'self.%s never set' % cls_name, 'GeoAssignments never sets class %s%s' % (cls_name, under), init.loc())
+        continue
+      rows = env.table(fields[cls_name] & H, ['c', 't', 'x'])
+      want = {r for r, k in DOC_ROWS.items() if k == cls_name} & env.table(H, ['c', 't', 'x'])
+      n += 1
+      rep.check(rows == want, 'R1/partition', 'class %s holds exactly row %s%s' % (cls_name, sorted(want), under), init.qualname,
+                'self.%s%s' % (cls_name, under),
+                'class %s contains eligibility rows %s but the documented table assigns it %s%s: geos are classified wrongly'
+                % (cls_name, sorted(rows), sorted(want), under), init.loc())
+    # partition facts (follow from the above but stated on their own)
+    have = [fields[k] & H for k in CLASSES if k in fields]
+    union = 0
+    disjoint = True
+    for i, a_ in enumerate(have):
+      union |= a_
+      for b_ in have[i + 1:]:
+        if a_ & b_:
+          disjoint = False
+    legal = (c | t | x) & H
+    rep.check(disjoint and union == legal, 'R1/partition', 'seven classes are pairwise disjoint and cover exactly the legal rows%s' % under,
+              init.qualname, 'class algebra%s' % under, 'the seven classes do not partition the legal rows%s' % under, init.loc())
   rep.floor('class/field formulas evaluated', n, 11)
   rep.extra['exhaustive_rows'] = 8
+  rep.extra['constructor_paths'] = len(outcomes)
 
 
 GUARDS = [
@@ -175,7 +234,10 @@ def r2_validation(repo, rep):
   if 'zero-one' not in classes:
     for n, lab, raises in guards:
       txt = norm(rd.expand(n, n.expr, keep=(dfp,))[0])
-      if (('.min()' in txt and '.max()' in txt) or ('< 0' in txt and '> 1' in txt) or '.between(0, 1' in txt) and ('control' in txt or 'value_columns' in txt):
+      lower0 = any(k in txt for k in ('>= 0', '< 0', '0 <=', '0 >'))
+      upper1 = any(k in txt for k in ('<= 1', '> 1', '1 >=', '1 <'))
+      if ('.min()' in txt and '.max()' in txt and lower0 and upper1) or ('.between(0, 1' in txt) \
+          or (lower0 and upper1 and ('control' in txt or 'value_columns' in txt)):
         rep.violation('R2/validation', f.qualname, txt[:140],
                       'the entries are validated with the numeric range test `%s`: values strictly between 0 and 1 (and NaN) pass, so tables with entries outside {0, 1} are accepted' % txt[:100],
                       f.loc(n.expr))
